@@ -109,6 +109,10 @@ def gen_unary(rng, cx=False):
         if name == "abs":
             for r in (0, 2):
                 yield case("abs", [A(rng, shape_of_rank(rng, r), d, cx)], form="operator")
+        if name == "angle":
+            for shp in ((3,), (2, 2)):
+                yield case("angle", [A(rng, shp, d, cx)], {"deg": True}, tags=["option"])
+                yield case("angle", [A(rng, shp, d, cx)], {"deg": False}, tags=["option"])
         if cx:
             # complex dtype whose imaginary parts are exactly zero (real data that became complex on the way)
             for shp in ((3,), (2, 2)):
